@@ -684,9 +684,14 @@ class CallsMixin:
                 vals, off = [], 0
                 for f_ in parts:
                     w_ = struct.calcsize(f_)
-                    vals.append(T("unpacked", f_, T("slice", buf, C(off), C(off + w_), ty="bytes"), ty="int"))
+                    if f_[1] == "B":
+                        vals.append(self.do_index(buf, C(off), env, node))       # an unsigned octet is the octet itself
+                    else:
+                        vals.append(T("unpacked", f_, self.do_slice(buf, C(off), C(off + w_), env, node), ty="int"))
                     off += w_
                 return T("tuple", tuple(vals))
+            if fmt.a[0] in ("!B", ">B", "<B", "B") and not (buf.k == "sym"):
+                return T("tuple", (self.do_index(buf, C(0), env, node),))
             return T("tuple", (T("unpacked", fmt.a[0], buf, ty="int"),))
         if name == "struct.unpack_from":
             # unpack_from(fmt, buffer, offset=0): reads exactly calcsize(fmt) octets at offset, the buffer may be longer
